@@ -8,3 +8,10 @@ def run(ctx, rep):
     equil.rule_gsequ_codes(mod, rep)
     equil.rule_gsequ_clip(mod, rep)
     driver.rule_expert_table(mod, rep, "C11")
+    import re
+    from ..rules import more2
+    more2.rule_arg_names(mod, rep, lambda f: re.match(r"p[sdcz]gssvx$|[sdcz]laqgs$|[sdcz]gsequ$", f.name) is not None, floor=1)
+    from ..rules import misc
+    misc.rule_dense_stride(mod, rep, patterns=("p?gssvx",))
+    from ..rules import more3
+    more3.rule_minmax_scan(mod, rep)
